@@ -376,5 +376,6 @@ func leU64(b []byte) uint64 {
 // safeDisconnect: the harness must not create failures of its own; give in-flight acks a moment, then stop.
 func safeDisconnect(m *mtproto.MTProto) {
 	time.Sleep(20 * time.Millisecond)
-	wk.Guard(func() { m.Disconnect() })
+	// bounded: a tree whose Disconnect blocks must not hang the harness's own clean-up (the goroutine is left behind)
+	withTimeout(5*time.Second, func() { wk.Guard(func() { m.Disconnect() }) })
 }
